@@ -3,6 +3,7 @@ SPECIFICATION Spec
 CONSTANTS
   Fields <- FieldsDef
   InsertByRemaining = FALSE
+  DropUserDefault = FALSE
   NAtoms = 3
   Width = 3
   Shape = "inner"
